@@ -552,3 +552,132 @@ Qed.
 
 Print Assumptions C02_generated_parent_order.
 Print Assumptions C02_generated_forward_input_forms.
+
+
+(* ==================================================================================================================
+   Q-to-R bridge for the data-plumbing family (run/RunMapping.v on model/Mapping.v; proofs/QR_bridge_Mapping.v).
+   model/Mapping.v is polymorphic in the type of one ROW (to_ragged_seq_set, build_mapping, check_io, unfold_mapping,
+   to_data_mapping) and in the type of one returned array (fold_mapping); allocate_returned_states has no data.  The bridge is
+   therefore NATURALITY - every plumbing function commutes with [map f] on rows for every f : A -> B, so with f := map Q2R:
+   nesting form, keys and their order, numbers and lengths of sequences and raised / not raised are the same at R, values are
+   the embedded ones - plus, for the only numeric part ([model_run]: the loop of Model.run over the sequences on top of
+   ModelSem.run_op), the relations of QR_bridge_Model.v.  Verdict theorems for every chk_* of run/RunMapping.v.  No shape
+   hypothesis, no side condition. *)
+From RV Require Import run.RunMapping proofs.QR_bridge_Mapping.
+
+(* naturality, for every row map f *)
+Theorem C02_plumbing_natural {A B : Type} (f : A -> B) (mm : mmodel) (nodes : list mnode) (io : io_type)
+        (X : Mapping.data A) (Y : option (Mapping.data A)) (dm : Mapping.dict (list (list A))) :
+  build_mapping nodes (mapd f X) io = dmap (map (map f)) (build_mapping nodes X io) /\
+  check_io nodes (dmap (map (map f)) dm) io = check_io nodes dm io /\
+  unfold_mapping (dmap (map (map f)) dm) = option_map (map (dmap (map f))) (unfold_mapping dm) /\
+  to_data_mapping mm (mapd f X) (option_map (mapd f) Y)
+  = option_map (fun p => (map (dmap (map f)) (fst p), map (option_map (dmap (map f))) (snd p))) (to_data_mapping mm X Y).
+Proof.
+  exact (conj (build_mapping_nat f nodes X io) (conj (check_io_nat f nodes dm io)
+        (conj (unfold_mapping_nat f dm) (to_data_mapping_nat f mm X Y)))).
+Qed.
+Theorem C02_fold_mapping_natural {X Y : Type} (g : X -> Y) (mm : mmodel) (states : list (Mapping.dict X)) (rs : rstates) :
+  fold_mapping mm (map (dmap g) states) rs = mapres g (fold_mapping mm states rs).
+Proof. exact (fold_mapping_nat g mm states rs). Qed.
+
+(* Model.run over several sequences: run at Q, then embed = run at R on the embedded data (final environment, returned object
+   with its form, success flag) *)
+Theorem C02_Qmodel_run_embeds_in_R (mm : mmodel) (m : @model Q) (mR : @model R) stateful reset from fromR
+        (X : Mapping.data (list Q)) (rs : rstates) (e : @env Q) (eR : @env R) :
+  m_rel Q2R m mR -> opt_rel Q2R from fromR -> env_rel Q2R e eR ->
+  env_rel Q2R (fst (fst (model_run mm m stateful reset from X rs e)))
+              (fst (fst (model_run mm mR stateful reset fromR (mapd qv2r X) rs eR))) /\
+  snd (fst (model_run mm mR stateful reset fromR (mapd qv2r X) rs eR)) = mapres qm2r (snd (fst (model_run mm m stateful reset from X rs e))) /\
+  snd (model_run mm mR stateful reset fromR (mapd qv2r X) rs eR) = snd (model_run mm m stateful reset from X rs e).
+Proof. exact (model_run_rel Q2R mm m mR stateful reset from fromR X rs e eR). Qed.
+
+(* the verdicts: [dict_relP P] = same keys in the same order and P on the values; [opt_relP P] = both raised or both returned
+   P-related values; mrclose = entry-wise within 1e-9*max(1,|model|) *)
+Theorem C02_chk_build_mapping_is_about_R (nodes : list mnode) (d : Mapping.data qv) (target : bool) (obs : Mapping.dict (list qsq)) :
+  chk_build_mapping nodes d target obs = true ->
+  dict_relP (Forall2 mrclose) (build_mapping nodes (mapd qv2r d) (if target then IoTarget else IoInput)) (dmap (map qm2r) obs).
+Proof. exact (chk_build_mapping_is_about_R nodes d target obs). Qed.
+Theorem C02_chk_unfold_is_about_R (dm : Mapping.dict (list qsq)) (obs : option (list (Mapping.dict qsq))) :
+  chk_unfold dm obs = true ->
+  opt_relP (Forall2 (dict_relP mrclose)) (unfold_mapping (dmap (map qm2r) dm)) (option_map (map (dmap qm2r)) obs).
+Proof. exact (chk_unfold_is_about_R dm obs). Qed.
+Theorem C02_chk_to_data_mapping_is_about_R (mm : mmodel) (X : Mapping.data qv) (Y : option (Mapping.data qv))
+        (obs : option (list (Mapping.dict qsq) * list (option (Mapping.dict qsq)))) :
+  chk_to_data_mapping mm X Y obs = true ->
+  opt_relP (fun a b => Forall2 (dict_relP mrclose) (fst a) (fst b) /\ Forall2 (opt_relP (dict_relP mrclose)) (snd a) (snd b))
+           (to_data_mapping mm (mapd qv2r X) (option_map (mapd qv2r) Y))
+           (option_map (fun p => (map (dmap qm2r) (fst p), map (option_map (dmap qm2r)) (snd p))) obs).
+Proof. exact (chk_to_data_mapping_is_about_R mm X Y obs). Qed.
+Theorem C02_chk_fold_is_about_R (mm : mmodel) (states : list (Mapping.dict qsq)) (rs : rstates) (obs : result qsq) :
+  chk_fold mm states rs obs = true -> result_relR (fold_mapping mm (map (dmap qm2r) states) rs) (mapres qm2r obs).
+Proof. exact (chk_fold_is_about_R mm states rs obs). Qed.
+Theorem C02_chk_alloc_is_exact (mm : mmodel) (rs : rstates) (obs : option (list nat)) :
+  chk_alloc mm rs obs = true -> allocate_returned_states mm rs = obs.
+Proof. exact (chk_alloc_is_exact mm rs obs). Qed.
+(* [result_relR]: same form of the returned object (bare array / list / dict / dict of lists / exception), same keys, values within
+   the tolerance *)
+Theorem C02_result_relR_spelled (a b : result (list (list R))) :
+  result_relR a b <->
+  match a, b with
+  | RBare x, RBare y => mrclose x y
+  | RBareList x, RBareList y => Forall2 mrclose x y
+  | RDict x, RDict y => Forall2 (fun p q => fst p = fst q /\ mrclose (snd p) (snd q)) x y
+  | RDictList x, RDictList y => Forall2 (fun p q => fst p = fst q /\ Forall2 mrclose (snd p) (snd q)) x y
+  | RErr, RErr => True
+  | _, _ => False
+  end.
+Proof. destruct a, b; exact (iff_refl _). Qed.
+Theorem C02_chk_model_run_is_about_R_model (nodes : list snode) (sm : smodel) (mm : mmodel) (stateful reset : bool)
+        (from : list (nat * qv)) (X : Mapping.data qv) (rs : rstates) (ook : bool) (ores : result qsq) (ostates : list (nat * qv)) :
+  chk_model_run nodes sm mm stateful reset from X rs ook ores ostates = true ->
+  let r := model_run mm (to_modelR nodes sm) stateful reset (assoc (eal from)) (mapd qv2r X) rs (init_envR nodes) in
+  is_topo (assoc_list (mparents sm)) [] (morder sm) = true /\
+  snd r = ook /\ (snd r = true -> result_relR (snd (fst r)) (mapres qm2r ores)) /\ states_okR (fst (fst r)) ostates.
+Proof. exact (chk_model_run_is_about_R_model nodes sm mm stateful reset from X rs ook ores ostates). Qed.
+Theorem C02_chk_model_run2_is_about_R_model (nodes : list snode) (sm : smodel) (mm : mmodel)
+        (st1 rst1 : bool) (X1 : Mapping.data qv) (rs1 : rstates) (ores1 : result qsq)
+        (st2 rst2 : bool) (X2 : Mapping.data qv) (rs2 : rstates) (ores2 : result qsq) (ostates : list (nat * qv)) :
+  chk_model_run2 nodes sm mm st1 rst1 X1 rs1 ores1 st2 rst2 X2 rs2 ores2 ostates = true ->
+  let r1 := model_run mm (to_modelR nodes sm) st1 rst1 (assoc (eal [])) (mapd qv2r X1) rs1 (init_envR nodes) in
+  let r2 := model_run mm (to_modelR nodes sm) st2 rst2 (assoc (eal [])) (mapd qv2r X2) rs2 (fst (fst r1)) in
+  is_topo (assoc_list (mparents sm)) [] (morder sm) = true /\
+  snd r1 = true /\ snd r2 = true /\ result_relR (snd (fst r1)) (mapres qm2r ores1) /\ result_relR (snd (fst r2)) (mapres qm2r ores2) /\
+  states_okR (fst (fst r2)) ostates.
+Proof. exact (chk_model_run2_is_about_R_model nodes sm mm st1 rst1 X1 rs1 ores1 st2 rst2 X2 rs2 ores2 ostates). Qed.
+
+(* non-vacuity: affine -> accumulator, a Python list of two sequences (2 and 1 timesteps); bare list of arrays with
+   return_states = None, dict of lists with "all"; the runner answers true on the exact values, hence the R-model run on the
+   embedded data is within the tolerance of them, and the unfolded mappings have the observed form *)
+Definition exM_nodes : list snode := [mkSN 0 (KFun 2 (1#2))%Q None 1 []; mkSN 1 KAcc None 1 []].
+Definition exM_sm : smodel := mkSM [0; 1] [(1, [0])] [1].
+Definition exM_mm : mmodel :=
+  mkMM [mkMN 0 false false false; mkMN 1 false false false] [mkMN 0 false false false] [mkMN 1 false false false].
+Definition exM_X : Mapping.data qv := DList [[[1#2]; [-1#1]]; [[1#1]]]%Q.
+Example C02_bridge_mapping_example :
+  chk_model_run exM_nodes exM_sm exM_mm true false [] exM_X RsNone true
+                (RBareList [[[3#2]; [0#1]]; [[5#2]]]%Q) [(0%nat, [5#2]%Q); (1%nat, [5#2]%Q)] = true /\
+  chk_model_run exM_nodes exM_sm exM_mm true false [] exM_X RsAll true
+                (RDictList [(0%nat, [[[3#2]; [-3#2]]; [[5#2]]]%Q); (1%nat, [[[3#2]; [0#1]]; [[5#2]]]%Q)]) [(1%nat, [5#2]%Q)] = true /\
+  chk_to_data_mapping exM_mm exM_X None (Some ([[(0%nat, [[1#2]; [-1#1]]%Q)]; [(0%nat, [[1#1]]%Q)]], [None; None])) = true /\
+  (let r := model_run exM_mm (to_modelR exM_nodes exM_sm) true false (assoc (eal [])) (mapd qv2r exM_X) RsNone (init_envR exM_nodes) in
+   snd r = true /\ result_relR (snd (fst r)) (RBareList [qm2r [[3#2]; [0#1]]%Q; qm2r [[5#2]]%Q])).
+Proof.
+  assert (E : chk_model_run exM_nodes exM_sm exM_mm true false [] exM_X RsNone true
+                (RBareList [[[3#2]; [0#1]]; [[5#2]]]%Q) [(0%nat, [5#2]%Q); (1%nat, [5#2]%Q)] = true) by (vm_compute; reflexivity).
+  split; [exact E|]. split; [vm_compute; reflexivity|]. split; [vm_compute; reflexivity|].
+  destruct (C02_chk_model_run_is_about_R_model _ _ _ _ _ _ _ _ _ _ _ E) as (_ & H1 & H2 & _).
+  split; [exact H1 | exact (H2 H1)].
+Qed.
+
+Print Assumptions C02_plumbing_natural.
+Print Assumptions C02_fold_mapping_natural.
+Print Assumptions C02_Qmodel_run_embeds_in_R.
+Print Assumptions C02_chk_build_mapping_is_about_R.
+Print Assumptions C02_chk_unfold_is_about_R.
+Print Assumptions C02_chk_to_data_mapping_is_about_R.
+Print Assumptions C02_chk_fold_is_about_R.
+Print Assumptions C02_chk_alloc_is_exact.
+Print Assumptions C02_result_relR_spelled.
+Print Assumptions C02_chk_model_run_is_about_R_model.
+Print Assumptions C02_chk_model_run2_is_about_R_model.
